@@ -213,9 +213,9 @@ class SymbolicExpression(Generic[T], ABC):
     def _reset_evaluation_state_(self) -> None:
         """
         Forget what this expression remembered during a previous evaluation of the query it belongs to.
-        Expressions that keep such a memory (e.g. the conclusion selectors of a rule tree) override this.
+        Expressions that keep more than their truth value (e.g. the conclusion selectors of a rule tree) extend this.
         """
-        pass
+        self._is_false_ = False
 
     @lru_cache(maxsize=None)
     def _projection_(self, when_true: Optional[bool] = True) -> HashedIterable[int]:
@@ -1622,6 +1622,14 @@ class OR(LogicalBinaryOperator, ABC):
 
     left_evaluated: bool = field(default=False, init=False)
     right_evaluated: bool = field(default=False, init=False)
+
+    def _reset_evaluation_state_(self) -> None:
+        """
+        An evaluation that was abandoned while an operand was being evaluated leaves its flag set.
+        """
+        super()._reset_evaluation_state_()
+        self.left_evaluated = False
+        self.right_evaluated = False
 
     @lru_cache(maxsize=None)
     def _projection_(self, when_true: Optional[bool] = True) -> HashedIterable[int]:
